@@ -1,7 +1,7 @@
 (* C13: the statements of the property assembled from KeepP (decode), KeepViewP (known fields unchanged, uuids),
    KeepSizeP (size), EvoTopP (C08 for the plain build). *)
 From PVGen Require Import Gen GenKeep GenSpec EvoSpec KeepSpec Proofs.GenBase Proofs.EncP Proofs.EvoBase Proofs.EvoP
-  Proofs.EvoErrP Proofs.EvoTopP Proofs.KeepBase Proofs.KeepP Proofs.KeepSizeP Proofs.KeepTopP Proofs.KeepViewP Proofs.KeepRetP.
+  Proofs.EvoErrP Proofs.EvoTopP Proofs.KeepBase Proofs.KeepP Proofs.KeepSizeP Proofs.KeepTopP Proofs.KeepViewP Proofs.KeepRetP Proofs.KeepWtP.
 From PV Require Import Proofs.TablesP Proofs.PrimP Proofs.HeaderP Proofs.RoundtripP.
 Open Scope Z_scope.
 
@@ -45,22 +45,24 @@ Theorem keep_retain_trip : forall S p k T tv g,
   wt tv = true -> ttype_of tv = ttype_of_ty S T ->
   evo_dom S T tv = true -> no_retyped_variant S T tv = true ->
   forall c, w_pend c = None ->
-  viewk S p k c T tv = Ok g -> wt (reenc S T tv) = true ->
+  viewk S p k c T tv = Ok g -> empty_elems_ok S T tv = true ->
   exists ss b,
     write_val p k tv c = Ok (ss, c) /\
     (forall fuel r rcx, (vsize tv <= fuel)%nat -> idle rcx ->
        gen_decode_keep S p fuel T (mkS (flat ss ++ r) rcx) = Ok (g, mkS r rcx)) /\
     enc_ty S p k T g c = Ok (b, c) /\
     size_ty S p T g c = Ok (Z.of_nat (length (flat b)), c) /\
+    wt (reenc S T tv) = true /\
     (forall fuel r rcx, (vsize (reenc S T tv) <= fuel)%nat -> idle rcx ->
        read_val p fuel (ttype_of tv) (mkS (flat b ++ r) rcx) = Ok (reenc S T tv, mkS r rcx)).
 Proof.
-  intros S p k T tv g Hwf Hnka Hbin Hwt Hty Hd Hn c Hc Hv Hwr.
+  intros S p k T tv g Hwf Hnka Hbin Hwt Hty Hd Hn c Hc Hv Hee.
+  pose proof (reenc_wt S tv T Hwf Hwt Hty Hd Hn Hee) as Hwr.
   destruct (keep_decode S p k T tv Hnka Hbin Hwt Hty Hd Hn c Hc) as (ss & Hw & Hk).
   destruct (keep_retain S p k c T tv g Hwf Hbin Hc Hn Hv Hwr) as (b & He & Hr).
   exists ss, b. split; [exact Hw|]. split.
   { intros fuel r rcx Hf Hi. rewrite (Hk fuel r rcx Hf Hi), Hv. reflexivity. }
-  split; [exact He|]. split; [|exact Hr].
+  split; [exact He|]. split; [|split; [exact Hwr|exact Hr]].
   exact (size_keep_all S p Hbin k g (viewk_uuids S p k c tv T g Hwf Hwt Hv) T c b c He).
 Qed.
 
@@ -80,7 +82,7 @@ Proof.
   assert (Hv : exists g, viewk Rk p BContig w0 (TyRef 0) tvk = Ok g) by (destruct p; try congruence; eexists; vm_compute; reflexivity).
   destruct Hv as (g & Hv).
   destruct (keep_retain_trip Rk p BContig (TyRef 0) tvk g eq_refl eq_refl Hp eq_refl eq_refl eq_refl eq_refl w0 eq_refl Hv eq_refl)
-    as (ss & b & Hw & Hd & He & _ & Hr).
+    as (ss & b & Hw & Hd & He & _ & _ & Hr).
   exists g, ss, b. split; [exact Hv|]. split; [exact Hw|]. split.
   { specialize (Hd 40%nat [] r0 ltac:(vm_compute; lia) idle_r0). rewrite app_nil_r in Hd. exact Hd. }
   split; [exact He|].
